@@ -4,7 +4,7 @@ from typing import Union
 class str:
     def __init__(self, arg: Union[int, float, complex, bool, str]) -> str: pass
 
-    def __add__(self, other: Union[int, float, complex, bool, str]) -> str: pass
+    def __add__(self, other: str) -> str: pass
 
     def __str__(self) -> str: pass
 
